@@ -18,7 +18,7 @@ TABLE = {
     "C07-1": ("C07", "Complex::powcomp reduces the exponent with integer_class % 4 (truncating) instead of the floored mod_f",
               "a purely imaginary exact Complex base (I, 2*I, the I coefficient of I*x) raised to a NEGATIVE integer congruent to 1 or 2 mod 4 (-2, -3, -6, -7): pow(I*x, -2) = -I/x**2", ""),
     "C08-1": ("C08", "lowergamma: the term x**(s-1)*exp(-x) hoisted out of both recursion branches, the downward branch needs x**s",
-              "s a NEGATIVE half-integer (-1/2, -3/2, ...) and x != 1", ""),
+              "s a NEGATIVE half-integer (-1/2, -3/2, ...) and x != 1", "MISSED by the first run: the generator drew the first argument of lowergamma/uppergamma from a pool of 38 numbers, so the downward recursion (negative half-integer s) was almost never exercised. Strengthened: checks/C08.py draws s from integers and half-integers of both signs for the incomplete gamma functions and the corpus holds lowergamma(-1/2, x), lowergamma(-3/2, 2), lowergamma(-5/2, 1/3), uppergamma(-1/2, x), ..."),
     "C09-1": ("C09", "ExpandVisitor::pow_expand inserts a bare Symbol factor with std::map::insert (keeps an existing exponent) instead of Mul::dict_add_term",
               "(sum)**n with n >= 3 where the sum contains a bare symbol AND another term with the same symbol (x**2, x*y, 1/x) that is visited first in the hash-ordered dictionary: expand((x**2 + x)**3)", ""),
     "C10-1": ("C10", "DiffVisitor::bvisit(Subs) differentiates the body when it mentions x (has_symbol) instead of when x is not one of the substituted variables",
@@ -30,7 +30,7 @@ TABLE = {
     "C16-1": ("C16", "Parser::parse_numeric decides that a literal fits into long from its digit count (<= 19) instead of errno == ERANGE",
               "an integer literal with 19 digits above LONG_MAX, i.e. |n| in [2^63, 10^19 - 1]: strtol saturates silently", ""),
     "C18-1": ("C18", "SbmlParser::parse_identifier memoises symbols in local_parser_constants keyed by the LOWERCASED name",
-              "a reused SbmlParser: an earlier input (even one that fails to parse) with a mixed-case identifier (S, Km), a later input with the all-lowercase spelling (s, km)", ""),
+              "a reused SbmlParser: an earlier input (even one that fails to parse) with a mixed-case identifier (S, Km), a later input with the all-lowercase spelling (s, km)", "MISSED by the first run: every identifier of the SBML token soup was lower case, so the case-insensitive lookup of SbmlParser was never exercised with two spellings of one name. Strengthened: checks/C18.py SBML tokens now include mixed-case/lower-case pairs (S/s, Km/km, Vmax/vmax, Pi/PI/pi, TIME/time) and two corpus histories (the first contains an input that fails to parse)"),
     "C26-1": ("C26", "matrix_mul flattening a nested MatrixMul REPLACES the accumulated scalar by the inner scalar when that is not 1",
               "a nested product that carries a coefficient other than 1 AND a non-trivial coefficient accumulated before it: 3*(2*D) = 2*D, (3*A)*(2*B) = 2*(A*B)", ""),
     "C30-1": ("C30", "solve_poly_quartic: `aby4 = a/4` renamed to `shift = -a/4`, one use in the g == 0 branch converted to sub(r, shift) instead of add(r, shift)",
@@ -50,7 +50,9 @@ TABLE = {
     "C43-1": ("C43", "mp_boost.cpp mp_fdiv_qr/mp_cdiv_qr copy only the dividend; the post-division fix-up reads the divisor b after the division",
               "the Boost.Multiprecision build and a call where the REMAINDER aliases the DIVISOR (mp_fdiv_r(t, a, t) in _nthroot_mod_prime_power): nthroot_mod(-7, 2, 16)", ""),
     "C44-1": ("C44", "MathML xml_escape rewritten in place and resumes the search at pos + 5 (length of &amp;) after every replacement (&lt; &gt; have 4)",
-              "a Symbol/FunctionSymbol name with < or > IMMEDIATELY followed by < or & (n<<2, x<&y): the second character is written raw", ""),
+              "a Symbol/FunctionSymbol name with < or > IMMEDIATELY followed by < or & (n<<2, x<&y): the second character is written raw", "MISSED by the first run: the odd symbol names contained at most one XML special character. Strengthened: checks/C44.py ODD_SYMS now has names with several special characters, adjacent and apart (n<<2, x<&y, k>&m, f><g, <<<<, &&, a<b<c, &lt;), also as function names"),
+    "C40-1": ("C40", "RCP<T>::operator=(const RCP<T>&) rewritten as `if (ptr_ != r.ptr_) { reset(); ptr_ = r.ptr_; ++refcount }`: the target is released BEFORE the source is read",
+              "the assigned handle is the sole owner of a node and the right-hand side is a const reference to a handle stored INSIDE that node (e = FunctionSymbol(*e).get_vec()[0], e = Mul(*e).get_dict().begin()->first): read of freed memory, then a double free", "MISSED by the first run: handle programs assigned only from handle variables and temporaries, never from a handle that lives INSIDE the object the target owns. Strengthened: new driver op `km i j k` (v[i] = FunctionSymbol(*v[j]).get_vec()[k] through the getter's const reference, mostly with i == j), predicted by the model as OApi i [] (Old member); generated with probability 0.08 per step plus two corpus programs"),
     "C05-1": ("C05", "Complex::powcomp reduces the exponent with C++ `other.as_int() % 4` instead of the floored mod_f(other, 4)",
               "a NEGATIVE integer exponent not divisible by 4 on a pure-imaginary Gaussian rational (C++ % truncates towards zero, "
               "so rem is negative and falls into the wrong branch); positive exponents are unaffected", ""),
